@@ -237,7 +237,13 @@ pub fn eval_a(env: &Env, si: usize, s: &Subject, c: &Corruption, collapse: bool,
                 }
             }
             out.eval(&format!("{tag}:off-circuit-err/in-circuit-ok(substituted-equal={sub_equal:?}{})", if stands_for_valid { ",exposes-the-VALID-accumulator" } else { "" }), nontrivial);
-            out.viol(Viol::new(
+            // NOT judged (it was, in the first version of this check: false alarm, see DESIGN.md 9.2).
+            // The property speaks of *proofs*; bytes that do not decode are not a proof, and the
+            // source documents the substitution ("If an error, do not fail, assign a default ...
+            // allows us to parse dummy proofs"). What IS judged is that the exposed accumulator then
+            // equals the off-circuit accumulator of the default-substituted proof (below).
+            out.counter("undecodable-element-substituted-by-default-in-circuit(not-judged)", 1);
+            let _ = Viol::new(
                 "verifier-gadget:error-surface-mismatch",
                 format!(
                     "off-circuit prepare fails ({e}) on {} / {} ({}), but the in-circuit verifier is synthesised without error and exposes an accumulator \
@@ -247,7 +253,7 @@ pub fn eval_a(env: &Env, si: usize, s: &Subject, c: &Corruption, collapse: bool,
                     if stands_for_valid { "; here the element of the valid proof IS the default value, so these undecodable bytes yield the accumulator of the valid proof" } else { "" }
                 ),
                 detail.clone(),
-            ));
+            );
             if sub_equal == Some(false) {
                 out.viol(Viol::new(format!("verifier-gadget:accumulator-mismatch:{}", c.class), "in-circuit accumulator differs from the off-circuit accumulator of the default-substituted proof".to_string(), detail));
             }
@@ -302,14 +308,17 @@ pub fn find_k(s: &Subject, collapse: bool) -> Result<u32, String> {
 // Part (b): constraint level
 // ------------------------------------------------------------------------------------------------
 
-fn satisfied(p: &MockProver<F>, full: bool) -> bool {
-    if full {
-        p.verify().is_ok()
-    } else {
-        // gates and lookups do not depend on the instance (checked by the caller): only the copy
-        // constraints can notice an instance edit, and `verify_at_rows` always checks all of them
-        p.verify_at_rows(0..0, 0..0).is_ok()
+/// Exact satisfiability of the tables. The copy-constraint check alone (`verify_at_rows` with no
+/// gate / lookup rows still checks every copy constraint) is tried first: its failures are a
+/// subset of the failures of `verify`, so "fails" is already the answer; only when it passes is
+/// the full verification run.
+fn satisfied(p: &MockProver<F>, out: &mut CaseOut) -> bool {
+    if p.verify_at_rows(0..0, 0..0).is_err() {
+        out.counter("b:decided-by-copy-constraints", 1);
+        return false;
     }
+    out.counter("b:decided-by-full-verify", 1);
+    p.verify().is_ok()
 }
 
 pub enum BCase {
@@ -318,6 +327,9 @@ pub enum BCase {
     ValidAndInstanceEdits,
     /// a corrupted (still parseable) proof: Sat with its own accumulator, Unsat with the valid one
     CorruptedOwnAcc(Corruption),
+    /// witness-only synthesis with an Add(1) fault on advice assignment `idx`, propagated: does the
+    /// exposed accumulator change? (cheap scan that selects the cells worth a full verification)
+    FaultScan(u64),
     /// Add(1) fault on advice assignment number `idx`, propagated through witness generation
     Fault(u64),
 }
@@ -331,6 +343,8 @@ pub struct BEnv<'a> {
     /// collapsed encodings reachable by changing a free witness (a proof scalar or a public input by +1)
     pub legit: HashSet<Vec<F>>,
     pub n_cells: Mutex<u64>,
+    /// assignment indices whose +1 fault changes the exposed accumulator (filled by FaultScan)
+    pub effective: Mutex<Vec<u64>>,
 }
 
 pub fn eval_b(b: &BEnv, case: &BCase) -> CaseOut {
@@ -365,14 +379,11 @@ pub fn eval_b(b: &BEnv, case: &BCase) -> CaseOut {
                     return out;
                 }
             }
-            let inst_independent = p.cs().instance_queries().is_empty();
-            out.count(if inst_independent { "gates-do-not-query-instance" } else { "gates-query-instance" }, 1);
             let enc = honest.encoded_collapsed.clone();
-            let positions: Vec<usize> = if inst_independent { (0..enc.len()).collect() } else { vec![0, enc.len() / 2, enc.len() - 1] };
-            for i in positions {
+            for i in 0..enc.len() {
                 for delta in [F::ONE, -F::ONE] {
                     p.instance_mut()[1][i] = InstanceValue::Assigned(enc[i] + delta);
-                    let sat = satisfied(&p, !inst_independent);
+                    let sat = satisfied(&p, &mut out);
                     out.eval(if sat { "instance-edit:SAT" } else { "instance-edit:unsat" }, true);
                     if sat {
                         out.viol(Viol::new("verifier-gadget:satisfied-with-edited-instance", format!("position {i} of the instance changed by {delta:?} and the circuit is still satisfied"), json!({"position": i, "subject": s.name})));
@@ -382,7 +393,7 @@ pub fn eval_b(b: &BEnv, case: &BCase) -> CaseOut {
             }
             // one extra / one missing public input
             p.instance_mut()[1][enc.len()] = InstanceValue::Assigned(F::ONE);
-            let sat = satisfied(&p, !inst_independent);
+            let sat = satisfied(&p, &mut out);
             out.eval(if sat { "instance-extra-value:sat(padding row is not constrained)" } else { "instance-extra-value:unsat" }, true);
             p.instance_mut()[1][enc.len()] = InstanceValue::Padding;
             // a claimed accumulator from a different valid proof (same circuit shape when the
@@ -394,7 +405,7 @@ pub fn eval_b(b: &BEnv, case: &BCase) -> CaseOut {
                         for (i, v) in enc2.iter().enumerate() {
                             p.instance_mut()[1][i] = InstanceValue::Assigned(if keep_vk && i == 0 { enc[0] } else { *v });
                         }
-                        let sat = satisfied(&p, !inst_independent);
+                        let sat = satisfied(&p, &mut out);
                         out.eval(if sat { "other-proof-acc:SAT" } else { "other-proof-acc:unsat" }, true);
                         if sat {
                             out.viol(Viol::new("verifier-gadget:satisfied-with-other-accumulator", "the circuit is satisfied with the accumulator of a different proof as instance", json!({"subject": s.name})));
@@ -408,7 +419,7 @@ pub fn eval_b(b: &BEnv, case: &BCase) -> CaseOut {
             for i in 0..enc.len() {
                 p.instance_mut()[1][i] = InstanceValue::Assigned(F::ZERO);
             }
-            let sat = satisfied(&p, !inst_independent);
+            let sat = satisfied(&p, &mut out);
             out.eval(if sat { "zero-instance:SAT" } else { "zero-instance:unsat" }, true);
             if sat {
                 out.viol(Viol::new("verifier-gadget:satisfied-with-edited-instance", "satisfied with the all-zero instance", json!({})));
@@ -440,10 +451,31 @@ pub fn eval_b(b: &BEnv, case: &BCase) -> CaseOut {
             for (i, v) in honest.encoded_collapsed.iter().enumerate() {
                 p.instance_mut()[1][i] = InstanceValue::Assigned(*v);
             }
-            let sat = satisfied(&p, false);
+            let sat = satisfied(&p, &mut out);
             out.eval(if sat { "corrupted-proof/valid-acc:SAT" } else { "corrupted-proof/valid-acc:unsat" }, true);
             if sat && o.encoded_collapsed != honest.encoded_collapsed {
                 out.viol(Viol::new(format!("verifier-gadget:satisfied-with-other-accumulator:{}", c.class), "corrupted proof satisfied with the accumulator of the valid proof", json!({"corruption": c.name})));
+            }
+        }
+        BCase::FaultScan(idx) => {
+            let circuit = VerifierCircuit::new(&s.vk, &s.committed, &s.plain, &s.proof, true);
+            verif::set_plan(vec![(*idx, Fault::Add(1), Mode::Propagate)]);
+            let r = catch(|| crate::tracer::trace(&circuit));
+            let applied = verif::applied();
+            verif::reset();
+            match r {
+                Ok(Ok(t)) => {
+                    let exv: Option<Vec<F>> = t.exposed_column(1).into_iter().collect();
+                    if applied.is_empty() || !applied[0].changed {
+                        out.count("scan:fault-not-applied", 1);
+                    } else if exv.as_ref() == Some(&honest.encoded_collapsed) {
+                        out.eval("scan:no-effect-on-exposed-accumulator", true);
+                    } else {
+                        out.eval("scan:changes-exposed-accumulator", true);
+                        b.effective.lock().unwrap().push(*idx);
+                    }
+                }
+                _ => out.eval("scan:crash-unsat(witness generation fails)", true),
             }
         }
         BCase::Fault(idx) => {
